@@ -94,7 +94,7 @@ meta("C10",
      set_samples=["queries_exercised"])
 
 meta("C12",
-     rule="(1) exhaustively: 4 orientation pairs x {A->B, A->A, B->A} x all 1-operation and all ordered 2-operation CIGARs over M,I,D,P,=,X,H,S,N plus '*': complement text vs the model, involution, length exchange, symmetric and repeatable equivalence tests; (2) random links with CIGARs of <=6 operations: adding the complement of a stored link (either form stored) adds nothing and raises nothing, a link differing otherwise is a separate edge; paths over the link in both traversal directions x 6 arrival orders of P/L/S, the recorded direction flag is checked by interpreting it; non-trivial = overlap different from its own complement",
+     rule="(1) exhaustively: 4 orientation pairs x {A->B, A->A, B->A} x all 1-operation and all ordered 2-operation CIGARs over M,I,D,P,=,X,H plus '*': complement text vs the model, involution, length exchange, symmetric and repeatable equivalence tests; (2) random links with CIGARs of <=6 operations: adding the complement of a stored link (either form stored) adds nothing and raises nothing, a link differing otherwise is a separate edge; paths over the link in both traversal directions x 6 arrival orders of P/L/S, the recorded direction flag is checked by interpreting it; non-trivial = overlap different from its own complement",
      budget={"quick": 20, "thorough": 300},
      min_counts={"quick": {"complements": 3000, "equivalence_tests": 20000, "complement_additions": 300, "path_resolutions": 600}},
      exhaustive="stratum (1): orientation pairs x segment pairs x all 1- and 2-operation CIGARs")
